@@ -1,8 +1,84 @@
-import Pycoin.Model.RFC6979
-namespace Pycoin.Curve
+import Pycoin.Proofs.ECDSA
+import Pycoin.Proofs.CurveFacts.secp256k1
+import Pycoin.Proofs.CurveFacts.secp256r1
+/-!
+C01 — ECDSA: deterministic signatures verify for the signer and for nobody else.  Property theorems; helper
+lemmas in `Proofs/ECDSA.lean` (on top of the C02 refinement of the group law).
 
-/-- `verify` rejects `z = 0` as coded -/
-theorem C01_verify_zero (c : CurveParams) (bf : Int) (Q : Pt) (r s : Int) : verify c bf Q 0 r s = .ok false := by
+Setting: `[Good c]` and `ok : ECDSAOk c` (`n` an odd prime `≤ 2²⁵⁶`, `G` a reduced curve point, `n • G = ∞`) — both
+proved below for secp256k1 and secp256r1 from the generated constants.  `G c` is the generator in Mathlib's group
+`(W c).Point`, `zsm c a T` the action of `a : ZMod n` on an `n`-torsion point, `xModN` the `x`-coordinate mod `n`.
+-/
+namespace Pycoin.Curve
+open Pycoin
+
+variable {c : CurveParams} [Good c] (ok : ECDSAOk c)
+include ok
+
+/-- `Generator.verify(Q, z, (r, s))`, `z ≠ 0`, `Q` a reduced curve point: never raises and returns `True` exactly when
+`1 ≤ r, s < n` and `x((z/s)•G + (r/s)•Q) mod n = r`; in particular every `r` or `s` outside `[1, n−1]` is rejected,
+and a sum equal to infinity is rejected.  PARTIAL: extra hypothesis `n • Q = ∞` (it holds for every honest key
+`Q = d•G`, and for every curve point if `#E(F_p) = n`, which cannot be proved here). -/
+theorem C01_verify_iff_partial (bf : Int) (Q : Pt) (hQ : OnCurve c Q) (rQ : Reduced c Q)
+    (hQn : (c.n : Int) • toPoint c Q = 0) (z r s : Int) (hz : z ≠ 0) :
+    ∃ b, verify c bf Q z r s = .ok b ∧
+      (b = true ↔ 1 ≤ r ∧ r < c.n ∧ 1 ≤ s ∧ s < c.n ∧
+        xModN c (zsm c ((z : ZMod c.n) * (s : ZMod c.n)⁻¹) (G c) +
+          zsm c ((r : ZMod c.n) * (s : ZMod c.n)⁻¹) (toPoint c Q)) = some r) :=
+  verify_iff ok bf Q hQ rQ hQn z r s hz
+
+omit [Good c] ok in
+/-- `z = 0` is refused before anything else, as coded -/
+theorem C01_verify_zero (bf : Int) (Q : Pt) (r s : Int) : verify c bf Q 0 r s = .ok false := by
   simp [verify]
 
+/-- whatever `sign_with_recid(d, z)` returns — with the default RFC 6979 nonce or any other `gen_k`, with any
+blinding factors — satisfies `1 ≤ r, s < n` and verifies under the public key `d•G` as the code computes it.
+(No hypothesis on `d`: the property's `1 ≤ d < n` is not even needed.) -/
+theorem C01_sign_verifies (genK : Nat → Int → Int → Except Err Int) (bf bf' bf'' d z r s v : Int)
+    (h : signWithRecid c bf genK d z = .ok (r, s, v)) :
+    z ≠ 0 ∧ 1 ≤ r ∧ r < c.n ∧ 1 ≤ s ∧ s < c.n ∧
+    ∃ Q, mulG c bf' d = .ok Q ∧ verify c bf'' Q z r s = .ok true :=
+  sign_verifies ok genK bf bf' bf'' d z r s v h
+
+/-- the instance with the default nonce function (`Generator.sign_with_recid(d, z)` as called by `Key.sign`) -/
+theorem C01_sign_verifies_rfc6979 (bf bf' bf'' d z r s v : Int)
+    (h : Pycoin.RFC6979.signWithRecid c bf d z = .ok (r, s, v)) :
+    z ≠ 0 ∧ 1 ≤ r ∧ r < c.n ∧ 1 ≤ s ∧ s < c.n ∧
+    ∃ Q, mulG c bf' d = .ok Q ∧ verify c bf'' Q z r s = .ok true :=
+  sign_verifies ok _ bf bf' bf'' d z r s v h
+
+/-- `verify` cannot tell `s` from `n − s`: comparing backends "up to s ↔ n−s" loses nothing -/
+theorem C01_verify_neg_s (bf : Int) (Q : Pt) (hQ : OnCurve c Q) (rQ : Reduced c Q)
+    (hQn : (c.n : Int) • toPoint c Q = 0) (z r s : Int) (hz : z ≠ 0) :
+    verify c bf Q z r ((c.n : Int) - s) = verify c bf Q z r s :=
+  verify_neg_s ok bf Q hQ rQ hQn z r s hz
+
+omit [Good c] ok in
+/-- when the first nonce `k = gen_k(n, d, z)` gives `r ≠ 0` and `s ≠ 0` the signature is the textbook one for that
+nonce, `r = x(k•G) mod n`, `s = k⁻¹(z + d·r) mod n`, `recid = (y & 1) + 2·[x > n]`: with `gen_k` =
+`deterministic_generate_k` this is the RFC 6979 signature.  (What `gen_k` returns is compared with an independent
+RFC 6979 on every run; see `Spec/RFC6979.lean`.) -/
+theorem C01_sign_eq_first_nonce (genK : Nat → Int → Int → Except Err Int) (bf d z k x y ki : Int) (hz : z ≠ 0)
+    (hk : genK c.n d z = .ok k) (hm : mulG c bf k = .ok (some (x, y))) (hki : inverseN c k = .ok ki)
+    (hr : x % c.n ≠ 0) (hs : (ki * (z + d * (x % c.n) % c.n)) % c.n ≠ 0) :
+    signWithRecid c bf genK d z =
+      .ok (x % c.n, (ki * (z + d * (x % c.n) % c.n)) % c.n, y % 2 + (if x > c.n then 2 else 0)) :=
+  sign_first_nonce genK bf d z k x y ki hz hk hm hki hr hs
+
 end Pycoin.Curve
+
+namespace Pycoin.Gen.Curves
+open Pycoin.Curve
+
+/-- the hypotheses of the generic theorems hold for the curves pycoin ships for ECDSA (constants as generated from
+the code now): `n` an odd prime `≤ 2²⁵⁶` (Pratt certificate), `G` reduced and on the curve, `n • G = ∞` -/
+theorem C01_ecdsaOk_secp256k1 : ECDSAOk secp256k1 :=
+  ⟨prime_n_secp256k1, by decide +kernel, by decide +kernel, G_on_curve_secp256k1,
+    by unfold Reduced basis; decide +kernel, order_G_secp256k1⟩
+
+theorem C01_ecdsaOk_secp256r1 : ECDSAOk secp256r1 :=
+  ⟨prime_n_secp256r1, by decide +kernel, by decide +kernel, G_on_curve_secp256r1,
+    by unfold Reduced basis; decide +kernel, order_G_secp256r1⟩
+
+end Pycoin.Gen.Curves
